@@ -81,6 +81,39 @@ fn show_f64(x: f64) -> String {
     }
 }
 
+fn serde_unescape(d: &str) -> String {
+    let mut out = String::new();
+    let mut it = d.chars().peekable();
+    while let Some(c) = it.next() {
+        if c == '\\' {
+            match it.next() {
+                Some('u') => {
+                    let mut hex = String::new();
+                    it.next();
+                    while let Some(&h) = it.peek() {
+                        it.next();
+                        if h == '}' {
+                            break;
+                        }
+                        hex.push(h);
+                    }
+                    if let Some(ch) = u32::from_str_radix(&hex, 16).ok().and_then(char::from_u32) {
+                        out.push(ch);
+                    }
+                }
+                Some('n') => out.push('\n'),
+                Some('t') => out.push('\t'),
+                Some('r') => out.push('\r'),
+                Some(o) => out.push(o),
+                None => {}
+            }
+        } else {
+            out.push(c);
+        }
+    }
+    out
+}
+
 fn chars(s: &str) -> Vec<char> {
     s.chars().collect()
 }
@@ -278,7 +311,9 @@ fn dom_op(kind: &str, op: &str, a: &Args) -> Outcome {
     // policy=whole: the resulting data must be lexically valid for the node kind (C15).
     let whole = arg(a, "policy") == "whole";
     let valid = |x: &[char]| !whole || valid_kind(kind, x);
-    let frag_ok = whole || valid_kind(kind, &dv);
+    // insert_char_at hands the JOINED string to the checker
+    let frag_ok = true;
+    let valid_joined = |x: &[char]| valid_kind(kind, x);
     let expected = match op {
         "length" => format!("{}", v.len()),
         "substring_data" => match dom_substring(&v, o, c) {
@@ -291,7 +326,7 @@ fn dom_op(kind: &str, op: &str, a: &Args) -> Outcome {
                 show_state(Err("Err(IndexSizeErr)".into()), content)
             } else {
                 let n = insert_spec(&v, o, &dv);
-                if valid(&n) && frag_ok {
+                if valid_joined(&n) && frag_ok {
                     show_state(Ok(()), &st(&n))
                 } else {
                     show_state(Err("Err(invalid)".into()), content)
@@ -312,8 +347,10 @@ fn dom_op(kind: &str, op: &str, a: &Args) -> Outcome {
             let (o, c) = if op == "set_data" { (0, v.len()) } else { (o, c) };
             match dom_delete(&v, o, c) {
                 Ok(n) => {
+                    // the code inserts first (validated on the joined string), then deletes the shifted old range
                     let n2 = insert_spec(&n, o, &dv);
-                    if valid(&n2) && frag_ok {
+                    let mid = insert_spec(&v, o, &dv);
+                    if valid_joined(&mid) && valid(&n2) && frag_ok {
                         show_state(Ok(()), &st(&n2))
                     } else {
                         show_state(Err("Err(invalid)".into()), content)
@@ -387,8 +424,9 @@ fn info_op(kind: &str, op: &str, a: &Args) -> Outcome {
         "substring" => format!("{:?}", st(&substring_spec(&v, o, c))),
         "delete" => format!("data={:?}", st(&delete_spec(&v, o, c))),
         "insert" => {
+            // the RESULT must be lexically valid for the node kind (the checker sees the joined string)
             let n = insert_spec(&v, o, &dv);
-            if valid_kind(kind, &dv) {
+            if valid_kind(kind, &n) {
                 format!("Ok data={:?}", st(&n))
             } else {
                 format!("Err data={:?}", content)
@@ -396,6 +434,23 @@ fn info_op(kind: &str, op: &str, a: &Args) -> Outcome {
         }
         _ => unreachable!(),
     };
+    // policy=whole (C15): whatever a successful edit stores must still be valid character data of its kind
+    if arg(a, "policy") == "whole" && (op == "delete" || op == "insert") {
+        let stored = observed.split("data=").nth(1).map(|s| s.trim().trim_matches('"').to_string());
+        let still_valid = match (&stored, observed.starts_with("Err")) {
+            (_, true) => true,
+            (Some(d), false) => {
+                let un: String = serde_unescape(d);
+                valid_kind(kind, &chars(un.as_str()))
+            }
+            _ => true,
+        };
+        return Outcome {
+            observed: format!("stored_data_valid={}", still_valid),
+            expected: "stored_data_valid=true".into(),
+            note: format!("C15: a successful edit must store lexically valid data; the real code answered: {}", observed),
+        };
+    }
     Outcome { observed, expected, note: String::new() }
 }
 
@@ -532,8 +587,8 @@ pub fn run(op: &str, a: &Args) -> Option<Outcome> {
 // ------------------------------------------------------------------------------------------------
 // boundary grids (deterministic; derived from the case split of the contract clauses)
 
-pub const CONTENTS: [&str; 8] = ["", "a", "ab", "a\u{e9}\u{1d4b3} b", "0123456789", "]]", "a-b-c", "e\u{301}\u{1F600}x"];
-pub const INSERTS: [&str; 10] = ["", "x", "\u{e9}\u{1d4b3}", ">", "<", "&", "-", "--", "]]>", "a]"];
+pub const CONTENTS: [&str; 9] = ["", "a", "ab", "a\u{e9}\u{1d4b3} b", "0123456789", "]]", "a-b-c", "e\u{301}\u{1F600}x", "]x]>"];
+pub const INSERTS: [&str; 11] = ["", "x", "\u{e9}\u{1d4b3}", ">", "<", "&", "-", "--", "]]>", "a]", "-x"];
 
 fn usize_grid(len: usize) -> Vec<String> {
     let mut v: Vec<String> = vec![];
